@@ -51,6 +51,11 @@ pub fn resp_header_size(headers: &std::collections::HashMap<String, String>) -> 
     2 + 8 + headers.iter().map(|(k, v)| 16 + k.len() + v.len()).sum::<usize>()
 }
 
+thread_local! {
+    /// `Peer` handles the application keeps for the life of a connection (sizes mode): (from, to) -> handle
+    pub static KEPT_PEERS: std::cell::RefCell<std::collections::HashMap<(i64, PeerId), anemo::Peer>> = Default::default();
+}
+
 pub struct Call {
     pub nonce: u64,
     pub from: usize,
@@ -96,9 +101,13 @@ pub fn spawn_call(sim: &Sim, c: Call) -> tokio::task::JoinHandle<()> {
             gate::hold_n(point, Some(1), move |f| f["route"] == nonce_route.as_str())
         });
         // half of the calls go through a `Peer` handle (what generated clients wrap) instead of
-        // `Network::rpc`
+        // `Network::rpc`; one in four through a handle the application has kept since the connection
+        // came up (a clone of it per call): what happened to earlier calls on it plays no part
         let via_peer = c.nonce % 2 == 0;
-        let fut: futures::future::BoxFuture<'static, anyhow::Result<anemo::Response<Bytes>>> = if via_peer {
+        let kept = if c.nonce % 4 == 0 { KEPT_PEERS.with(|k| k.borrow().get(&(from, to)).cloned()) } else { None };
+        let fut: futures::future::BoxFuture<'static, anyhow::Result<anemo::Response<Bytes>>> = if let Some(mut p) = kept {
+            Box::pin(async move { p.rpc(request).await })
+        } else if via_peer {
             let net = net.clone();
             Box::pin(async move {
                 match net.peer(to) {
@@ -183,6 +192,12 @@ fn random_request(rng: &mut StdRng, nonce: u64, big: bool) -> Request<Bytes> {
         req.headers_mut()
             .insert("resp-len".into(), body_size(rng, big).to_string());
     }
+    if rng.gen_bool(0.08) {
+        // a request may carry a lot of metadata: every header arrives, the ones with a meaning included
+        for i in 0..rng.gen_range(70..400) {
+            req.headers_mut().insert(format!("x-meta-{i}-{}", rand_string(rng, 4)), rand_string(rng, 6));
+        }
+    }
     if rng.gen_bool(0.12) {
         // header names and values are arbitrary strings too: empty, long, not ASCII
         let odd_v = match rng.gen_range(0..5) {
@@ -218,7 +233,7 @@ async fn workload(mut sim: Sim, o: Opts) -> Result<Value, String> {
     } else {
         vec![None, None, None]
     };
-    let stream_limit = if o.mode == "abandon" { Some(8u64) } else { None };
+    let stream_limit = if o.mode == "abandon" || (o.mode == "storm" && sim.rng.gen_bool(0.5)) { Some(8u64) } else { None };
     let mut cfgs: Vec<anemo::Config> = Vec::new();
     for (i, k) in keys.iter().enumerate() {
         // some networks are built with a user outbound layer: the defaults must still apply
@@ -232,6 +247,15 @@ async fn workload(mut sim: Sim, o: Opts) -> Result<Value, String> {
         }
         let mut config = base_config();
         config.max_frame_size = limits[i];
+        if let (Some(l), true) = (limits[i], i % 2 == 1) {
+            // as operators set it: read from a document, under the key the documentation names
+            let doc: anemo::Config = serde_json::from_value(json!({"max-frame-size": l}))
+                .map_err(|e| format!("VIOLATION: a configuration document with max-frame-size does not parse: {e}"))?;
+            config.max_frame_size = doc.max_frame_size;
+            if doc.max_frame_size != Some(l) {
+                return Err(format!("VIOLATION: max-frame-size = {l} read from a configuration document configures {:?}", doc.max_frame_size));
+            }
+        }
         if o.mode == "hugelimit" {
             // a maximum far beyond anything sent (and beyond what the 4-byte length prefix can say)
             config.max_frame_size = Some([usize::MAX, 1usize << 32, 1usize << 40][i % 3]);
@@ -290,6 +314,18 @@ async fn workload(mut sim: Sim, o: Opts) -> Result<Value, String> {
         }
     }
     settle(&mut sim, 50).await;
+    KEPT_PEERS.with(|k| k.borrow_mut().clear());
+    if o.mode == "sizes" || o.mode == "mix" {
+        for a in 0..n {
+            for b in 0..n {
+                if a != b {
+                    if let Some(p) = sim.net(a).peer(sim.peer_id(b)) {
+                        KEPT_PEERS.with(|k| k.borrow_mut().insert((a as i64, sim.peer_id(b)), p));
+                    }
+                }
+            }
+        }
+    }
     if o.faults {
         let mut p = Policy::default();
         p.latency_ms = (1, [1, 4, 15][sim.rng.gen_range(0..3)]);
@@ -356,7 +392,15 @@ async fn workload(mut sim: Sim, o: Opts) -> Result<Value, String> {
                     1 => call.abandon_at = Some("rpc.open"),
                     2 => call.abandon_at = Some("rpc.sent"),
                     3 => call.abandon_at = Some("rpc.finish"),
-                    4..=6 => call.abandon_after = Some(rng.gen_range(0..150)),
+                    4..=5 => call.abandon_after = Some(rng.gen_range(0..150)),
+                    6 => {
+                        // a handler that has been at it for a long time when its caller gives up
+                        // (served by the node without a concurrency limit: it must not hold up the others)
+                        req.headers_mut().insert("delay-ms".into(), "90000".into());
+                        call.abandon_after = Some([31_000u64, 45_000, 62_000][rng.gen_range(0..3)]);
+                        call.to = 2;
+                        call.from = rng.gen_range(0..2);
+                    }
                     7 => {
                         // abandoned while a multi-megabyte response is on its way back
                         let d = rng.gen_range(5..60u64);
@@ -381,7 +425,18 @@ async fn workload(mut sim: Sim, o: Opts) -> Result<Value, String> {
                 // and in quick succession, with ordinary calls in between: nothing adds up
                 call.from = 0;
                 call.to = 1;
-                if k % 20 == 19 {
+                if stream_limit.is_some() {
+                    // (storm behind a small stream limit: the first calls hold every stream for a few
+                    // seconds, hundreds more are abandoned while they wait for one, then ordinary calls)
+                    if k < 8 {
+                        req.headers_mut().insert("delay-ms".into(), "6000".into());
+                    } else if k < o.calls - 12 {
+                        call.abandon_after = Some(rng.gen_range(2..6));
+                        abandoned += 1;
+                    } else {
+                        call.must_succeed = true;
+                    }
+                } else if k % 20 == 19 {
                     call.must_succeed = true;
                 } else {
                     req.headers_mut().insert("delay-ms".into(), "5000".into());
@@ -526,6 +581,7 @@ async fn workload(mut sim: Sim, o: Opts) -> Result<Value, String> {
     }
     sim.obs_all_peers();
     sim.run.obs(-1, "obs.rpc_quiet", json!({}));
+    KEPT_PEERS.with(|k| k.borrow_mut().clear());
     for i in 0..n {
         shutdown(&mut sim, i).await;
     }
